@@ -103,6 +103,21 @@ class Lin:
                 return self.len_of(base)
         if v[0] == "arr":
             return const(len(v[1]))
+        if v[0] == "vec":
+            # a byte vector built on the path: appended slices contribute their lengths, pushed bytes one each
+            tot = const(0)
+            for it in v[1]:
+                if isinstance(it, tuple) and it and it[0] == "slice":
+                    src = it[1]
+                    if isinstance(src, tuple) and src and src[0] == "loc":
+                        tot = lin_add(tot, self.len_of(("sym", src[1][1]) if (src[1][0] == "D" and not src[2]) else ("ref", src[1], src[2])))
+                    else:
+                        tot = lin_add(tot, self.len_of(src))
+                elif isinstance(it, tuple) and it and it[0] in ("c", "sym"):
+                    tot = lin_add(tot, const(1))
+                else:
+                    return atom(("len", v))
+            return tot
         if t and t[0] == "mut" and t[1][0].endswith("Vec::<T, A>::resize") and len(t) > 5 and t[5]:
             return self.of_value(t[5][0])        # after v.resize(n, x): len(v) == n
         if t and t[0] == "mut" and (t[1][0].endswith("::index_mut") or t[1][0].endswith("::read") or t[1][0].endswith("::read_exact")
